@@ -18,14 +18,16 @@ T = {
          "chunk `off` of register `id` iff the root map decodes the address to `id` and reports it `off` above the register's start "
          "(all_resources / find_resource); unassigned addresses (and idle cycles) raise no r_stb, no w_stb in the next cycle and read zero, "
          "from any state, on the cycle-exact machine; every multiplexer configuration meets C04/C05's premise. Wishbone layer (decoder over "
-         "SRAMs and bridges): trace theorem on the cycle-exact machine - while the root decoder selects nobody, nothing is ever acknowledged, "
+         "SRAMs and bridges, dense windows between equal geometries or sparse windows under a whole-word root): for every granule address the "
+         "routing read off the hardware (root Case patterns, bridge Cat(cycle, adr), SRAM row/lane, then the CSR tree) reaches (id, off) iff "
+         "the root map decodes the address to id at offset off (reach_iff_decode, reach_iff_find, unassigned iff unreached); an address outside "
+         "every window of the root map selects nobody, and then - trace theorem on the cycle-exact machine - nothing is ever acknowledged, "
          "no SRAM sees cyc or changes, no register is read-strobed. Tied by running every root address (read and write) of generated real "
          "hierarchies against the model, and by an oracle against the real root.memory_map.decode_address()/all_resources()/find_resource().",
-         "Partial: for a Wishbone root the agreement of routing with the root map (reach_iff_decode through the Wishbone decoder, a bridge's "
-         "Cat(cycle, adr), SRAM row/lane) and the step from `outside every window of the map` to `no Case matches` are NOT proved (full "
-         "statements are in Properties/C01.v as comments); they are checked per address by the correspondence (model `reach` vs the real "
-         "map) and by the oracle (real hardware vs the real map). Arbitrary user glue between components is outside the grammar; the "
-         "acknowledge clause is read as in DESIGN §5 C01.",
+         "Partial in one respect: for a Wishbone root the cycle-exact counterpart of reach (which leaf is strobed in which cycle of a transfer "
+         "through a bridge) is proved per component (C07, C10, C15, C04/C05, and C10's bridge-over-multiplexer composition) but not composed "
+         "over the whole-hierarchy machine; only the unselected case is proved at machine level there. It is checked per address by the "
+         "correspondence. Arbitrary user glue between components is outside the grammar; the acknowledge clause is read as in DESIGN §5 C01.",
          "machine-checked proof in Coq (composition of the component theorems by induction over the hierarchy) + correspondence on real hierarchies"),
  "C02": ("proof", "DESIGN.md §5 C02", "memmap",
          "Coq theorems over a structure-mirroring model of memory.py for every reachable world (any finite history of add_resource/"
